@@ -322,6 +322,7 @@ func (e *Evidence) write(path string) error {
 			"op_only_scheduling":                                         e.build.Desc.OpOnly,
 			"blocking_sync_in_tree":                                      e.build.Desc.BlockingSync,
 			"non_sentinel_package_vars":                                  e.build.Desc.PkgVars,
+			"calibration_hot_kinds_and_units_hex":                        e.build.Hot,
 			"worker_cpu_s":                                               e.workerS,
 			"slowest_batch_s":                                            e.slowest,
 		},
